@@ -24,7 +24,12 @@ import (
 // accepts an existing environment and re-initialises it: the pattern of a long-lived driver)
 var sharedRE *process.RuntimeEnvironment
 
+// notc: skip the typechecker (the CLI's --notypecheck); runOpen: execute accepted programs with assumed names too
+var seqNoTC, seqRunOpen bool
+var seqProcs int
+
 func seqOne(text string, timeoutMs int, reuse bool) (verdict string, out string) {
+	seqProcs = -1
 	realStdout := os.Stdout
 	r, w, err := os.Pipe()
 	if err != nil {
@@ -47,10 +52,13 @@ func seqOne(text string, timeoutMs int, reuse bool) (verdict string, out string)
 		return "PARSE-ERR", ""
 	}
 	env.LogLevels = []process.LogLevel{}
-	if err := process.Typecheck(procs, assumed, env); err != nil {
-		return "REJECT", ""
+	seqProcs = len(procs)
+	if !seqNoTC {
+		if err := process.Typecheck(procs, assumed, env); err != nil {
+			return "REJECT", ""
+		}
 	}
-	if len(assumed) > 0 {
+	if len(assumed) > 0 && !seqRunOpen {
 		return "ACCEPT-OPEN", ""
 	}
 	if reuse {
@@ -67,7 +75,7 @@ func seqOne(text string, timeoutMs int, reuse bool) (verdict string, out string)
 	re.Color = false
 	re.Delay = 0
 	re.ExecutionVersion = process.NORMAL_ASYNC
-	re.Typechecked = true
+	re.Typechecked = !seqNoTC
 	channels := re.CreateChannelForEachProcess(procs)
 	re.SubstituteNameInitialization(procs, channels)
 	var cancelF context.CancelFunc = cancel
@@ -97,9 +105,17 @@ func seqRun(args []string, reuse bool) {
 				labels = append(labels, l[2:])
 			}
 		}
-		fmt.Fprintf(os.Stdout, "%s\t%s\t%s\n", c.id, v, strings.Join(labels, ","))
+		fmt.Fprintf(os.Stdout, "%s\t%s\t%s\t%d\n", c.id, v, strings.Join(labels, ","), seqProcs)
 	}
 	fmt.Fprintln(os.Stdout, "@@SEQ-DONE")
 }
 
-func init() { register("seq", seqCmd); register("seqre", seqReCmd) }
+func seqNcCmd(args []string)   { seqNoTC = true; seqRun(args, false) }
+func seqOpenCmd(args []string) { seqRunOpen = true; seqRun(args, false) }
+
+func init() {
+	register("seq", seqCmd)
+	register("seqre", seqReCmd)
+	register("seqnc", seqNcCmd)
+	register("seqopen", seqOpenCmd)
+}
